@@ -1268,6 +1268,9 @@ static inline void myth_entry_point_cleanup(myth_thread_t this_thread) {
     this_thread->when_I_finished = "no waiter and go to next";
     this_thread->waiter = 0;
 #endif
+    /* next may have been put in this run queue by another worker
+       (myth_wsapi_runqueue_pass) without being rebound */
+    next->env = env;
     //Switch to the next thread
     myth_set_context_withcall(&next->context, myth_entry_point_1,
 			      (void*)env, this_thread, next);
